@@ -492,6 +492,13 @@ func (t *textReader) onNull(ws bool) (Type, error) {
 
 // readNullType reads the null.{this} type symbol.
 func (t *textReader) readNullType() (Type, error) {
+	// The type name follows the dot directly: no whitespace or comments inside null.type.
+	if c, err := t.tok.peek(); err != nil {
+		return NoType, err
+	} else if !isIdentifierStart(c) {
+		return NoType, &SyntaxError{"invalid symbol null.", t.tok.Pos()}
+	}
+
 	if err := t.tok.Next(); err != nil {
 		return NoType, err
 	}
